@@ -67,6 +67,10 @@ def run(F, R):
     # Z9: the command queues run in the negotiated modes (C08.H3)
     from .C08 import queue_modes_rule
     queue_modes_rule(F, R, M, 'Z9', ['device::gpu', 'device::sound', 'device::rng', 'device::rtc', 'device::virtio_9p'])
+    # Z16: responses keep being seen after the 16-bit ring indices wrap (65536 completions on one queue): wrap-safe
+    # counters and the folded completion test (C03.E5 / E9)
+    from .C03 import wrap_rule
+    wrap_rule(F, R, 'Z16')
     # Z10: returned values equal what the device reported: integer -> enum decoding tables agree with the enums' codes
     decode_tables_rule(F, R, 'Z10', ['device::'])
     z11_rtc(F, R, M, roles)
